@@ -80,7 +80,9 @@ def run_case(case):
         if len(res['violations']) < 20:
             res['violations'].append({'clause': clause, 'site': 'icao.significant_cloud',
                                       'detail': {'oktas': list(seq), 'got': repr(got), 'expected': exp},
-                                      'sub': {'alphabet': case['alphabet'], 'single': list(seq)}})
+                                      # replay = the same depth-first walk, truncated at the failing
+                                      # sequence (keeps any call history a stateful defect may need)
+                                      'sub': {**{k: v for k, v in case.items() if k != 'stop_at'}, 'stop_at': list(seq)}})
 
     if 'single' in case:                     # replay of one sequence (and its parent)
         seq = case['single']
@@ -109,6 +111,9 @@ def run_case(case):
             for o in choices:
                 s2 = seq + [o]
                 f2 = visit(s2, pf)
+                if case.get('stop_at') == s2:
+                    stack = []
+                    break
                 if f2 is not None:
                     stack.append((s2, f2))
     res['digests'] = sorted(res['digests'])
